@@ -176,8 +176,8 @@ impl Prop for C14 {
         let mut debug_spliced = false;
         if rng.chance(1, 4) {
             let mut b = picked.bytes.clone();
-            for name in [".debug_info", ".debug_line", ".debug_str", ".debug_abbrev"] {
-                if rng.bool() {
+            for name in [".debug_info", ".debug_line", ".debug_str", ".debug_abbrev", ".debug_pubnames", ".debug_frame", ".debug_macro", ".debug_names", ".debug_foo", ".debug"] {
+                if rng.chance(1, 3) {
                     let plen = rng.below(40) as usize;
                     let sec = wasmsplit::custom_section_bytes(name.as_bytes(), &rng.bytes(plen));
                     let n = wasmsplit::split(&b).map(|s| s.len()).unwrap_or(0);
@@ -218,7 +218,7 @@ impl Prop for C14 {
         if rng.chance(1, 5) {
             let mut cur = picked.bytes.clone();
             for _ in 0..rng.range(1, 2) {
-                if let Some(f) = faults::draw(rng, &cur, &env.unrelated, 0x3fff) {
+                if let Some(f) = faults::draw(rng, &cur, &env.unrelated, 0x1ffff) {
                     if faults::apply(&mut cur, &f) {
                         fs.push(f);
                     }
